@@ -432,6 +432,9 @@ func (x *Exec) run(fr *Frame, st *State, b *ssa.BasicBlock, stop *ssa.BasicBlock
 				b = b.Succs[1]
 				continue
 			}
+			if os.Getenv("GOVC_DEBUG_BRANCH") != "" && strings.Contains(fnName(fr.fn), os.Getenv("GOVC_DEBUG_BRANCH")) {
+				fmt.Fprintf(os.Stderr, "BRANCH %s at %s: %s\n", fnName(fr.fn), x.P.Fset.Position(t.Cond.Pos()), c.Short())
+			}
 			join := fr.info.ipdom[b]
 			pT, pF := And(st.pc, c), And(st.pc, Not(c))
 			var rT, rF *State
@@ -1297,6 +1300,12 @@ func (x *Exec) bytesEqual(a, b SliceV) *Term {
 func (x *Exec) concatBytes(a, b SliceV, str bool) SliceV {
 	na, oka := concreteLen(a)
 	nb, okb := concreteLen(b)
+	if okb && nb == 0 && !oka && a.Obj != nil && isZero(a.Off) {
+		// nothing is appended to a string of symbolic length: the same octets (a fresh header)
+		r := a
+		r.Cap, r.Nil, r.Str = a.Len, False(), str
+		return r
+	}
 	if oka && okb {
 		o := x.newObject(types.Typ[types.Uint8], "cat")
 		e := make([]Value, 0, na+nb)
